@@ -1,2 +1,6 @@
 import TephraProps.C18
-#print axioms Tephra.Props.C18_len_step
+#print axioms Tephra.Props.C18_widen
+#print axioms Tephra.Props.C18_split
+#print axioms Tephra.Props.C18_family
+#print axioms Tephra.Props.C18_rejoin
+#print axioms Tephra.Props.C18_widen_minimal
